@@ -268,6 +268,7 @@ type regEnv struct {
 	lo, hi  int
 	addIDs  []string // id returned by the k-th add op ("" if it failed)
 	compact bool     // dir/compact.db holds the result of the last successful compact
+	nilBefore map[string]bool // ids of the torrents that had no bitfield when the last compact began
 }
 
 func regConfig(dir string, lo, hi int, resume bool) torrent.Config {
@@ -574,6 +575,13 @@ func (e *regEnv) compactTo(path string) (res string) {
 		}
 	}()
 	os.Remove(path)
+	// torrents without a bitfield before the compaction (checked by the bfcheck op afterwards)
+	e.nilBefore = map[string]bool{}
+	for _, t := range e.ses.ListTorrents() {
+		if !torrent.VerifHasBitfield(t) {
+			e.nilBefore[t.ID()] = true
+		}
+	}
 	err := e.ses.CompactDatabase(path)
 	if err != nil {
 		return "err:" + sanitize(err.Error())
@@ -656,6 +664,31 @@ func execRegistry(ops []string) []string {
 		case "flush":
 			torrent.VerifUpdateStats(e.ses)
 			res = "ok"
+		case "bfcheck":
+			// a torrent that had no bitfield before the compaction and has none now must have none in compact.db
+			res = "bf=same"
+			if e.compact {
+				if db, err := bbolt.Open(filepath.Join(dir, "compact.db"), 0600, &bbolt.Options{ReadOnly: true, Timeout: time.Second}); err == nil {
+					var phantom []string
+					for _, t := range e.ses.ListTorrents() {
+						if !e.nilBefore[t.ID()] || torrent.VerifHasBitfield(t) {
+							continue
+						}
+						_ = db.View(func(tx *bbolt.Tx) error {
+							if tb := tx.Bucket(torrent.VerifTorrentsBucket()); tb != nil {
+								if b := tb.Bucket([]byte(t.ID())); b != nil && len(b.Get(boltdbresumer.Keys.Bitfield)) > 0 {
+									phantom = append(phantom, t.ID())
+								}
+							}
+							return nil
+						})
+					}
+					db.Close()
+					if len(phantom) > 0 {
+						res = fmt.Sprintf("bf=phantom:%d", len(phantom))
+					}
+				}
+			}
 		case "compact":
 			res = e.compactTo(filepath.Join(dir, "compact.db"))
 			e.compact = strings.HasPrefix(res, "ok")
@@ -822,7 +855,7 @@ func genRegistry(r *Rng, n int, tier string) []Case {
 			case k < 79:
 				ops = append(ops, "flush")
 			case k < 87:
-				ops = append(ops, "compact")
+				ops = append(ops, "compact", "bfcheck")
 			case k < 91:
 				ops = append(ops, fmt.Sprintf("swap resume=%s", b01(r.Chance(70))))
 			default:
